@@ -22,8 +22,10 @@ unique column names, series / index names, dtypes.  data-level = ``Check``s
 stated inconsistently (pandas treats it as schema-level, polars needs a
 collect for it) -> tables never contain nulls, so ``nullable`` has no effect
 on any verdict.  Coercion / defaults / add_missing_columns / strict='filter'
-are parsers whose level is not documented -> not generated here (R5 does use
-coercing schemas: a disabled validation must not parse either).
+are parsers whose level is not documented -> not judged by R1/R2 (R5 does use
+coercing schemas: a disabled validation must not parse either).  strict='filter'
+is generated in a separate family (undeclared columns that a whole-frame check
+trips over unless they were filtered) which is judged by R3/R4 only.
 """
 from __future__ import annotations
 
@@ -100,6 +102,30 @@ def gen_case(rng, neutral):
                     if len(keep) != len(table["columns"]) and keep:
                         table["columns"] = keep
                         muts.append(("regex_absent", fs["name"]))
+        if spec["kind"] == "frame" and rng.random() < 0.18:
+            # parser under depth: strict='filter' with undeclared columns that a
+            # whole-frame check would trip over if they were not filtered out.
+            # Only R3/R4 are judged for these cases (the level of the parser is
+            # not documented, the full <=> SO and DO relation is).
+            names = {c["name"] for c in table["columns"]}
+            n = len(table["columns"][0]["values"]) if table["columns"] else 0
+            if n and not any(fs["regex"] for fs in spec["columns"]):
+                spec["strict"] = "filter"
+                spec["ordered"] = False
+                for j in range(rng.choice((1, 1, 2))):
+                    nm = f"zz_extra{j}"
+                    if nm in names:
+                        continue
+                    phys = rng.choice(("str", "int64", "float64"))
+                    vals = {"str": [rng.choice("xyz") for _ in range(n)],
+                            "int64": [rng.randrange(-9, -1) for _ in range(n)],
+                            "float64": [-1.5 - i for i in range(n)]}[phys]
+                    pos = rng.randrange(len(table["columns"]) + 1)
+                    table["columns"].insert(
+                        pos, {"name": nm, "phys": phys, "values": vals})
+                    muts.append(("undeclared_for_filter", nm, phys))
+                spec["frame_checks"].append(
+                    {"col": None, "kind": "whole_frame_numeric_ge", "value": -1})
         if has_null(table):
             continue
         return spec, table, muts
@@ -174,6 +200,16 @@ def _fk(pa, fs, polars=False, force_coerce=False):
 
 
 def _pd_frame_check(pa, fc):
+    if fc["kind"] == "whole_frame_numeric_ge":
+        v = fc["value"]
+
+        def whole(df):
+            bad = [c for c in df.columns if df[c].dtype.kind not in "iufb"]
+            if bad:
+                return False
+            num = df.select_dtypes("number")
+            return bool((num.min().min() >= v)) if num.size else True
+        return pa.Check(whole, name="frame_whole_numeric_ge")
     op, col, v = OPS[fc["kind"]], fc["col"], fc["value"]
     return pa.Check(lambda df: op(df[col], v),
                     name=f"frame_{fc['kind']}_{col}")
@@ -181,6 +217,16 @@ def _pd_frame_check(pa, fc):
 
 def _pl_frame_check(pp, fc):
     import polars as pl
+    if fc["kind"] == "whole_frame_numeric_ge":
+        v = fc["value"]
+
+        def whole(data):
+            df = data.lazyframe.collect()
+            if any(not (t.is_numeric() or t == pl.Boolean) for t in df.dtypes):
+                return False
+            return all(df[c].cast(pl.Float64).min() is None
+                       or df[c].cast(pl.Float64).min() >= v for c in df.columns)
+        return pp.Check(whole, name="frame_whole_numeric_ge")
     op, col, v = OPS[fc["kind"]], fc["col"], fc["value"]
     return pp.Check(lambda data: data.lazyframe.select(op(pl.col(col), v)),
                     name=f"frame_{fc['kind']}_{col}")
